@@ -115,10 +115,12 @@ def compile_prql(prql, target=None, fmt=False):
         cmd = [prqlc_bin(), "compile", "--hide-signature-comment"]
         if target:
             cmd += ["-t", target]
-    r = subprocess.run(cmd, input=prql, capture_output=True, text=True, env=env, timeout=60)
-    if r.returncode == 0:
-        return True, r.stdout
-    txt = r.stderr + r.stdout
+    # bytes in, bytes out: text mode would turn a CR LF inside a literal of the SQL into LF (universal newlines)
+    rb = subprocess.run(cmd, input=prql.encode("utf-8"), capture_output=True, env=env, timeout=60)
+    out, err = rb.stdout.decode("utf-8", "replace"), rb.stderr.decode("utf-8", "replace")
+    if rb.returncode == 0:
+        return True, out
+    txt = err + out
     if "panicked" in txt:
         txt = "PANIC " + txt
     return False, txt
